@@ -12,7 +12,7 @@ from pipeline import compile_many, run_driver
 
 MODULE = "Proofs.Props.C14"
 THEOREMS = ["Facto.elabStmts_append_error", "Facto.elabStmts_cons_error", "Facto.elabStmts_cons_ok", "Facto.C14_violation_anywhere_rejected",
-            "Facto.C14_violation_in_loop_rejected", "Facto.reserved_literal_expr_rejected"]
+            "Facto.C14_violation_in_loop_rejected", "Facto.reserved_literal_expr_rejected", "Facto.bare_any_rejected", "Facto.bare_all_rejected", "Facto.undefined_function_rejected", "Facto.recursion_rejected", "Facto.unknown_expr_rejected"]
 
 CLASS_OF_RULE = {
     "undef_var": {"undefined"}, "undef_func": {"undefined"}, "undef_mem": {"undefined"}, "undef_entity": {"undefined"},
